@@ -53,6 +53,20 @@ type ViolationRec struct {
 	Trace    []string `json:"trace,omitempty"`
 	Scenario any      `json:"scenario,omitempty"`
 	Shrinks  int      `json:"shrink_runs"`
+	// History, when set, replays a whole prefix of a worker's run sequence in
+	// one process before the failing run: for violations that depend on state
+	// the library keeps across calls of one process.
+	History *History `json:"history,omitempty"`
+	Base    uint64   `json:"base_seed"`
+	From    int      `json:"from"`
+	Stride  int      `json:"stride"`
+}
+
+type History struct {
+	Base   uint64 `json:"base"`
+	From   int    `json:"from"`
+	Stride int    `json:"stride"`
+	Index  int    `json:"index"`
 }
 
 func envInt(k string, d int) int {
@@ -157,6 +171,7 @@ func TestWorker(t *testing.T) {
 			}
 			rec := minimise(t, prop, tier, tape.Values(), v)
 			rec.Seed, rec.Index = seed, idx
+			rec.Base, rec.From, rec.Stride = base, from, stride
 			out.Violations = append(out.Violations, rec)
 		}
 		if len(out.Samples) < 2 && res.Nontrivial && k%7 == 3 {
@@ -195,6 +210,24 @@ func replayFile(t *testing.T, prop *Prop, path string, out *workerOut) {
 	tier := rec.Tier
 	if tier == "" {
 		tier = "quick"
+	}
+	if h := rec.History; h != nil {
+		// run the same sequence of runs this worker process had executed
+		var res *RunResult
+		for k := h.From; k <= h.Index; k += max(1, h.Stride) {
+			tp := core.NewTape(SeedFor(h.Base, prop.ID, k))
+			tp.NoTrace = true
+			res = RunOne(t, prop, tp, RunOpts{Tier: tier, KeepTrace: k == h.Index})
+			out.Runs++
+		}
+		if res != nil {
+			out.Status[res.Status]++
+			for _, v := range res.Violations {
+				out.Violations = append(out.Violations, &ViolationRec{Prop: prop.ID, Class: v.Class, Msg: v.Msg, Hash: res.Hash})
+			}
+			out.Samples = append(out.Samples, res)
+		}
+		return
 	}
 	tape := core.ReplayTape(rec.Tape)
 	if rec.Tape == nil {
